@@ -42,6 +42,49 @@ TARGETS = {
     "compute_form_data": ("ufl.algorithms.compute_form_data", "C01", {"whole": True}),
 }
 
+# mutation monitoring (C27): "mut:<name>" targets; the inputs of the OUTERMOST monitored call are snapshotted
+# (canon, repr, hash, signature, metadata) before and after the real call, whether it returns or raises
+MUT_TARGETS = {
+    "compute_form_data": "ufl.algorithms.compute_form_data",
+    "apply_algebra_lowering": "ufl.algorithms.apply_algebra_lowering",
+    "apply_derivatives": "ufl.algorithms.apply_derivatives",
+    "apply_coordinate_derivatives": "ufl.algorithms.apply_derivatives",
+    "apply_function_pullbacks": "ufl.algorithms.apply_function_pullbacks",
+    "apply_geometry_lowering": "ufl.algorithms.apply_geometry_lowering",
+    "apply_integral_scaling": "ufl.algorithms.apply_integral_scaling",
+    "apply_restrictions": "ufl.algorithms.apply_restrictions",
+    "cancel_jacobian_products": "ufl.algorithms.cancel_jacobian_products",
+    "remove_component_tensors": "ufl.algorithms.remove_component_tensors",
+    "remove_complex_nodes": "ufl.algorithms.remove_complex_nodes",
+    "do_comparison_check": "ufl.algorithms.comparison_checker",
+    "expand_derivatives": "ufl.algorithms.ad",
+    "expand_indices": "ufl.algorithms.expand_indices",
+    "renumber_indices": "ufl.algorithms.renumbering",
+    "replace": "ufl.algorithms.replace",
+    "attach_estimated_degrees": "ufl.algorithms.compute_form_data",
+    "estimate_total_polynomial_degree": "ufl.algorithms.estimate_degrees",
+    "group_form_integrals": "ufl.algorithms.domain_analysis",
+    "build_integral_data": "ufl.algorithms.domain_analysis",
+    "compute_form_signature": "ufl.algorithms.signature",
+    "strip_terminal_data": "ufl.algorithms.strip_terminal_data",
+    "extract_blocks": "ufl.algorithms.formsplitter",
+    "compute_form_lhs": "ufl.algorithms.formtransformations",
+    "compute_form_rhs": "ufl.algorithms.formtransformations",
+    "compute_form_action": "ufl.algorithms.formtransformations",
+    "compute_form_adjoint": "ufl.algorithms.formtransformations",
+    "compute_energy_norm": "ufl.algorithms.formtransformations",
+    "compute_form_functional": "ufl.algorithms.formtransformations",
+    "derivative": "ufl.formoperators",
+    "action": "ufl.formoperators",
+    "adjoint": "ufl.formoperators",
+    "lhs": "ufl.formoperators",
+    "rhs": "ufl.formoperators",
+    "system": "ufl.formoperators",
+    "functional": "ufl.formoperators",
+    "energy_norm": "ufl.formoperators",
+    "sensitivity_rhs": "ufl.formoperators",
+}
+
 SIMPLEX = {"interval": 1, "triangle": 2, "tetrahedron": 3}
 
 
@@ -327,6 +370,69 @@ def _wrap(name, prop, opts, fn):
     return wrapper
 
 
+def _wrap_mut(name, fn):
+    from .c27_monitor import C27Canon, Monitor, _count_leaves, diff, snap_any
+
+    mon = Monitor(REC, full=True)
+
+    @functools.wraps(fn)
+    def wrapper(*args, **kwargs):
+        if _STATE.get("mut_depth") or _STATE["judging"] or _STATE["t_judge"] > BUDGET:
+            return fn(*args, **kwargs)
+        _STATE["mut_depth"] = 1
+        try:
+            before = None
+            _STATE["judging"] = True
+            t0 = time.time()
+            try:
+                if sum(_size(a) for a in args if hasattr(a, "ufl_operands")) <= 4000:
+                    mon.canon = C27Canon("abs")
+                    before = snap_any((args, kwargs), mon.canon, True)
+            except BaseException as ex:
+                if isinstance(ex, (KeyboardInterrupt, SystemExit)):
+                    raise
+                REC.count("mut:snapshot_failed")
+                REC.covered("oracle_errors", f"mut:{name}: {type(ex).__name__}: {str(ex)[:100]}")
+                before = None
+            finally:
+                _STATE["judging"] = False
+                _STATE["t_judge"] += time.time() - t0
+            exc = None
+            try:
+                out = fn(*args, **kwargs)
+            except BaseException as ex:  # UFL has error classes deriving from BaseException
+                exc = ex
+            if before is not None and not isinstance(exc, (KeyboardInterrupt, SystemExit, GeneratorExit, MemoryError)):
+                _STATE["judging"] = True
+                t0 = time.time()
+                try:
+                    after = snap_any((args, kwargs), mon.canon, True)
+                    REC.count("mut:monitored_calls")
+                    REC.count(f"mut:{name}:calls")
+                    REC.count("mut:input_objects_compared", _count_leaves(before))
+                    REC.count("mut:calls_raised" if exc is not None else "mut:calls_returned")
+                    REC.covered("mut:ops", name)
+                    if diff(before, after):
+                        mon.trace = ["suite:" + str(_STATE.get("test"))]
+                        mon._report(name, "arg", (args, kwargs), before, after, "call made by the repository test " + str(_STATE.get("test")))
+                except BaseException as ex:
+                    if isinstance(ex, (KeyboardInterrupt, SystemExit)):
+                        raise
+                    REC.count("mut:oracle_error")
+                    REC.covered("oracle_errors", f"mut:{name}: {type(ex).__name__}: {str(ex)[:100]}")
+                finally:
+                    _STATE["judging"] = False
+                    _STATE["t_judge"] += time.time() - t0
+            if exc is not None:
+                raise exc
+            return out
+        finally:
+            _STATE["mut_depth"] = 0
+
+    wrapper._vf_monitor = True
+    return wrapper
+
+
 def install(targets):
     import importlib
 
@@ -337,13 +443,18 @@ def install(targets):
 
     nsites = 0
     for name in targets:
-        modname, prop, opts = TARGETS[name]
+        mutation = name.startswith("mut:")
+        if mutation:
+            name = name[4:]
+            modname = MUT_TARGETS[name]
+        else:
+            modname, prop, opts = TARGETS[name]
         mod = importlib.import_module(modname)
-        orig = getattr(mod, name)
-        if getattr(orig, "_vf_monitor", False):
+        orig = getattr(mod, name, None)
+        if orig is None or getattr(orig, "_vf_monitor", False):
             continue
         _ORIG[name] = orig
-        w = _wrap(name, prop, opts, orig)
+        w = _wrap_mut(name, orig) if mutation else _wrap(name, prop, opts, orig)
         for mname, m in list(sys.modules.items()):
             if m is None or not (mname == "ufl" or mname.startswith("ufl.")):
                 continue
